@@ -51,6 +51,17 @@ CLAIMED = {
     'C16': _cache('Clauses C16.*: a raising call leaves every observable unchanged and re-raises the same object after one evaluation; '
                   'safe decorators fall back to plain evaluation for unkeyable arguments.', '4 (C16)'),
     'C18': _cache('Clauses C18.*: key() is the storage key, lookup() returns the resident value or KeyError, both are pure; with ignore/tol variants.', '4 (C18)'),
+    'C19': ('valid', 'model_checking',
+            'C19.*: isvalid is True exactly when the interpreter binds the call, validate returns None / raises TypeError accordingly, '
+            'and neither ever runs the function. Python\'s binding (KeyP.PyBind) extended to bound methods, callable instances and '
+            'functools.partial is the oracle of layer P (ValidP) and is itself compared with the interpreter on every case; '
+            'signature()+validate() are transcribed as layer I (ValidImpl) and TLC checks every (target, call) of the catalogue; TLC '
+            'emits the catalogue, every target is materialised as a real callable, every call is put to isvalid/validate/the '
+            'interpreter, and TLC judges every recorded case (ValidTrace).', '4 (C19)',
+            'trusted: TLC, harness/valid_checks.py; bounded catalogue (160 signature shapes x function/method/callable x partials '
+            'fixing <=3 positionals and <=2 keywords; calls with <=4 positionals and <=3 keywords); no positional-only parameters, '
+            'nested partials or builtins',
+            'TLA+ transcription of Python binding + signature()/validate(), exhaustive catalogue check by TLC, catalogue replay + trace validation'),
     'C20': _cache('Clauses C20.*: a dill round trip yields equal contents/statistics/binding; lock-step continuation of original and copy; independence.', '4 (C20)'),
 }
 
